@@ -83,22 +83,24 @@ PLAN = {
     "C19": {
         "level": "proof",
         "witness": c19_witness,
-        "verus_units": ["codec_enc", "rope_core"],
+        "verus_units": ["codec_enc", "rope_core", "with_indices"],
         "extra_stages": [k4_with_indices],
         "kani": True,
         "engine": "verus-extract + kani-scratch",
         "technique": "contract-based deductive verification (Verus): the unsafe call's safety precondition as a `requires` on its assume_specification, discharged from the wire-alphabet invariant",
         "claim": "Partial, unbounded proof: both String::from_utf8_unchecked call sites (encoder.rs drain x2) are reached only with ASCII bytes. "
-                 "Bounded stand-in (Kani): WithIndices::<&str>::substring reaches str::get_unchecked only with in-range char-boundary ranges, for all index pairs over a text catalogue. "
+                 "Unbounded proof (unit with_indices): WithIndices::substring reaches SourceText::byte_slice_unchecked only with an ordered, in-range, char-boundary range, for EVERY text and every index pair, and for both instances "
+                 "(&str: the real byte_slice_unchecked/len of the &str impl are verified against that contract, down to str::get_unchecked; Rope: Rope::byte_slice_unchecked is proved in rope_core under exactly that precondition); "
+                 "std's contract of char_indices (offsets in order, each a char boundary) enters as an assumed contract (rule W1). The bounded Kani stage K4 (five texts, all index pairs, real iterator chain) stays as a cross-check of W1. "
                  "Unbounded proof (unit rope_core): all six unchecked accessors of rope.rs - data.get_unchecked(i) x3 in get_byte_slice_impl / byte_slice_unchecked and str::get_unchecked x4 in byte_slice_unchecked - are reached only "
                  "within their safety preconditions (index < number of pieces; range in bounds on char boundaries of the piece) for every rope satisfying the representation invariant, every kind of range bound, and - for the "
                  "unsafe fn - every call that keeps its documented contract; the invariant is established by new/from and preserved by add/append/slicing. "
                  "Bounded stand-in (Kani): Rope::get_byte_slice / get_byte on degenerate ropes (a multi-piece representation holding no piece) reach no unchecked index, for every range "
-                 "(found and fixed an out-of-bounds get_unchecked). Ropes built by from_iter / lines (not under contract), the Rope instance of WithIndices and the lifetime transmutes are not decided.",
+                 "(found and fixed an out-of-bounds get_unchecked). Ropes built by from_iter / lines (not under contract), Rope::char_indices and the lifetime transmutes are not decided.",
         "note": "Partial. The `requires` (all bytes < 128) on from_utf8_unchecked is a strengthening of its documented safety condition (valid UTF-8).",
         "trusted_base": TB_VERUS + TB_CODEC_ENC + TB_ROPE,
-        "assumptions": ["fields < 2^30", "ropes satisfy the representation invariant (proved for new/from/add/append/slices; not for from_iter/lines)"],
-        "not_covered": ["that Rope::from_iter and the Lines iterator establish the representation invariant (iterator adapters / ref patterns)", "WithIndices<Rope>::substring", "lifetime-extending transmutes", "concurrent use"],
+        "assumptions": ["fields < 2^30", "char_indices yields the byte offsets of the chars in order (std's contract; rule W1)", "WithIndices::indices_indexes, when filled, holds that table (it is only written by substring)", "ropes satisfy the representation invariant (proved for new/from/add/append/slices; not for from_iter/lines)"],
+        "not_covered": ["that Rope::from_iter and the Lines iterator establish the representation invariant (iterator adapters / ref patterns)", "Rope::char_indices (the Rope instance of rule W1's assumed contract)", "lifetime-extending transmutes", "concurrent use"],
         "design_ref": "DESIGN.md §4/C19",
     },
     "C05": {
